@@ -68,6 +68,11 @@ def case_tensordot(ctx, rng):
     k = len(axa)
     if list(axa) == list(range(a.ndim - k, a.ndim)) and list(axb) == list(range(k)):
         forms.append(("int", k))
+    # one-shot iterables (generators, map objects, reversed lists) and numpy arrays
+    forms.append(("generators", ((i for i in list(axa)), (i for i in list(axb)))))
+    forms.append(("map-objects", (map(int, list(axa)), map(int, list(axb)))))
+    forms.append(("reversed-iterators", (reversed(list(axa)[::-1]), reversed(list(axb)[::-1]))))
+    forms.append(("ndarrays", (np.array(axa, dtype=np.int64), np.array(axb, dtype=np.int64))))
     fname, axes = rng.choice(forms)
     mode = rng.choice(MODES)
     via = rng.choice(["function", "autoray"])
